@@ -50,3 +50,132 @@ Definition uc_run (u : ucount) (l : list wop) : ucount := fold_left uc_step l u.
 Definition uc_connected_spec (u : ucount) : N := N.of_nat (size (uc_live u)).
 (* what the code renders: the size of the metrics map *)
 Definition uc_connected_code (u : ucount) : N := N.of_nat (size (uc_known u)).
+
+(* ------------------------------------------------------------------ *)
+(* The Roto script of the configuration and the RIB units that fetch their
+   rib-in-pre filter from it: src/manager.rs compile_roto_script (called by
+   prepare on every load) and spawn_internal (hands Manager.roto_compiled to the
+   Component of every unit it STARTS; a unit of unchanged name and type is sent
+   Reconfigure and keeps what it has), src/units/rib_unit/unit.rs
+   RibUnitRunner::new (fetches `rib-in-pre` once) and filter_payload. *)
+
+(* What a configuration says about the script: no `roto_script`; a script
+   without a rib-in-pre filter; a script whose rib-in-pre rejects the routes of
+   one prefix (the engine's scripts: route.prefix_matches(p) -> reject). *)
+Inductive script := SNone | SNoRibFilter | SRejectPfx (p : N).
+
+Definition script_rejects (s : script) (pfx : N) : bool :=
+  match s with SRejectPfx p => (pfx =? p)%N | _ => false end.
+
+(* RibUnitRunner::filter_payload: every payload of an update - announcement or
+   withdrawal - is shown to the filter; a rejected one is dropped, the others
+   are inserted (and forwarded) in order. No filter: everything is inserted. *)
+Definition filter_update (s : script) (u : update) : update :=
+  match u with
+  | UBulk ps => UBulk (List.filter (fun p => negb (script_rejects s (k_pfx (p_key p)))) ps)
+  | _ => u
+  end.
+
+(* A RIB unit: the filter it fetched when it was started, the number of the load
+   that started it (0 = start-up), its store. *)
+Record runit := MkRunit { ru_filter : script; ru_born : nat; ru_rib : rib }.
+
+Definition upd_of (out : wout) : option update :=
+  match out with WoStep (OUpdate u) _ => Some u | _ => None end.
+Definition runit_apply (r : runit) (u : update) : runit :=
+  MkRunit (ru_filter r) (ru_born r) (rib_apply (ru_rib r) (filter_update (ru_filter r) u)).
+(* every update the bmp unit's gate sends reaches every RIB unit subscribed to it *)
+Definition runit_see (r : runit) (out : wout) : runit :=
+  match upd_of out with Some u => runit_apply r u | None => r end.
+
+(* The property's reading of the same filter, on the operation: the routes of a
+   rejected prefix are not there. (UGen, the wire form of Pipe/PipeRaw.v, is
+   not used by the end-to-end engine and is left as it is.) *)
+Definition filter_upd (s : script) (u : upd) : upd :=
+  match u with
+  | URoutes af ann a wf wd =>
+      URoutes af (List.filter (fun p => negb (script_rejects s p)) ann) a
+              wf (List.filter (fun p => negb (script_rejects s p)) wd)
+  | _ => u
+  end.
+Definition filter_wop (s : script) (o : wop) : wop :=
+  match o with
+  | WMsg k (MRoute p (Some u)) => WMsg k (MRoute p (Some (filter_upd s u)))
+  | _ => o
+  end.
+
+(* The operator's files: the script the configuration names, and whether it
+   has a second RIB unit `rib2` sourcing the bmp unit (0 absent, 1 a rib, any
+   other value: a unit of that name and another type). *)
+Record efile := MkEfile { ef_script : script; ef_rib2 : N }.
+
+Record estate := MkEs {
+  es_w : world;                 (* the pipeline model: sessions, register; w_rib = an unfiltered RIB *)
+  es_file : efile;              (* the files as the operator left them; they take effect with the next load *)
+  es_scripts : list script;     (* the script named by load 0 (start-up), 1, 2, ... *)
+  es_compiled : script;         (* Manager.roto_compiled *)
+  es_rib : runit;               (* unit `rib`, started by load 0 *)
+  es_rib2kind : N;              (* what runs under the name rib2 *)
+  es_rib2 : option runit;       (* ... its filter and store when it is a rib *)
+  es_s : sworld;                (* the property's reading of what `rib` should hold *)
+  es_s2 : option sworld }.      (* ... and `rib2`: sessions as es_s, routes since it was started *)
+
+Inductive eop :=
+| EW (o : wop)                  (* traffic *)
+| EScript (s : script)          (* the operator edits the script / names another one / takes roto_script out *)
+| EUnit (y : N)                 (* the operator adds, removes or re-types [units.rib2] *)
+| EReload.                      (* SIGHUP: ConfigFile::load, Config::from_config_file, Manager::spawn *)
+
+Definition e_init (s0 : script) : estate :=
+  MkEs world_init (MkEfile s0 0) [s0] s0 (MkRunit s0 0 rib_empty) 0 None sworld_init None.
+
+(* legacy = true: compile_roto_script as it was - a configuration WITHOUT
+   roto_script left Manager.roto_compiled as it was, so a unit started by that
+   load fetched its filters from a script that is no longer configured. *)
+Definition e_step (legacy : bool) (st : estate) (o : eop) : estate :=
+  match o with
+  | EW wo =>
+      let '(w', out) := wstep (es_w st) wo in
+      MkEs w' (es_file st) (es_scripts st) (es_compiled st)
+           (runit_see (es_rib st) out) (es_rib2kind st)
+           (option_map (fun r => runit_see r out) (es_rib2 st))
+           (sstep (es_s st) (filter_wop (ru_filter (es_rib st)) wo)).1
+           (match es_rib2 st, es_s2 st with
+            | Some r, Some s2 => Some (sstep s2 (filter_wop (ru_filter r) wo)).1
+            | _, _ => None
+            end)
+  | EScript s =>
+      MkEs (es_w st) (MkEfile s (ef_rib2 (es_file st))) (es_scripts st) (es_compiled st)
+           (es_rib st) (es_rib2kind st) (es_rib2 st) (es_s st) (es_s2 st)
+  | EUnit y =>
+      MkEs (es_w st) (MkEfile (ef_script (es_file st)) y) (es_scripts st) (es_compiled st)
+           (es_rib st) (es_rib2kind st) (es_rib2 st) (es_s st) (es_s2 st)
+  | EReload =>
+      let f := es_file st in
+      let compiled :=
+        if legacy then match ef_script f with SNone => es_compiled st | s => s end
+        else ef_script f in
+      let wanted := (ef_rib2 f =? 1)%N in
+      let keep := (es_rib2kind st =? 1)%N && wanted in
+      (* same name and type: Reconfigure, the unit keeps its filter and its store;
+         otherwise a unit is started with what the manager holds now *)
+      let rib2 := if keep then es_rib2 st
+                  else if wanted then Some (MkRunit compiled (length (es_scripts st)) rib_empty)
+                  else None in
+      let s2 := if keep then es_s2 st
+                else if wanted then Some (MkSWorld (s_sess (es_s st)) ∅ (s_bgp (es_s st)) (s_bgp_conns (es_s st)))
+                else None in
+      MkEs (es_w st) f (es_scripts st ++ [ef_script f]) compiled
+           (es_rib st) (ef_rib2 f) rib2 (es_s st) s2
+  end.
+
+Definition e_run (legacy : bool) (st : estate) (h : list eop) : estate := fold_left (e_step legacy) h st.
+
+(* the scripts named by the loads of a history, from the operations alone *)
+Fixpoint scripts_named (cur : script) (h : list eop) : list script :=
+  match h with
+  | [] => []
+  | EScript s :: t => scripts_named s t
+  | EReload :: t => cur :: scripts_named cur t
+  | _ :: t => scripts_named cur t
+  end.
